@@ -217,6 +217,7 @@ func respace(b string) string {
 var keyIDs = []string{"ed25519:k1", "ed25519:a_Obwu", "ed25519:1", "ed25519:auto"}
 
 const otherKeyID = "ed25519:other"
+const nextKeyID = "ed25519:next" // the second key ID of an origin that signs with two
 
 func keyFrom(label string) (ed25519.PublicKey, ed25519.PrivateKey) {
 	s := sha256.Sum256([]byte("c13 key " + label))
